@@ -81,8 +81,18 @@ func runHostileMode() {
 		root := roots[i%2]
 		o := genOpts(r)
 		o.zstd = (i/2)%2 == 1
+		if i%4 >= 2 && i%8 < 6 {
+			// a stream of an OLDER producer (WriterOptions.Schema): the reader builds fewer
+			// decoders than its own schema has, hostile values must not reach a missing one
+			o.schema, o.schemaDesc = olderWireSchema(r, root.name, i%8 < 4)
+			o.zstd = i%8 >= 4 && i%16 < 8
+			if o.schema != nil {
+				stats["base-streams-older-schema"]++
+			}
+		}
 		cfg := &recgen.Cfg{NoBigLens: i%3 != 0, MaxCalls: 20, NoFrozen: r.Bool(), DictResets: o.dictSize != 0 || o.flags&pkg.RestartDictionaries != 0}
-		_, res := generate(r, root, o, cfg, genParams{writes: 2 + r.Intn(10), maxMut: 3, flushProb: 3})
+		gp := genParams{writes: 2 + r.Intn(10), maxMut: 3, flushProb: 3}
+		_, res := generate(r, root, o, cfg, gp)
 		if res.werr != "" || len(res.stream) > 20000 {
 			continue
 		}
@@ -101,6 +111,54 @@ func runHostileMode() {
 	defer func() {
 		note("note hostile: largest allocation for one input: about %d MiB (rounded to 16 MiB)", (maxAlloc>>24)<<4)
 	}()
+	evalInput := func(i int, b base, in []byte, kind string) {
+		stats["input-"+kind]++
+		note("case ho-%d", i)
+		runtime.ReadMemStats(&ms)
+		before := ms.TotalAlloc
+		done := make(chan hostileResult, 1)
+		go readHostile(b.root, in, done)
+		var res hostileResult
+		select {
+		case res = <-done:
+		case <-time.After(2 * time.Second):
+			res.class = "hang"
+		}
+		runtime.ReadMemStats(&ms)
+		alloc := ms.TotalAlloc - before
+		bound := uint64(3*64<<20) + uint64(len(in)/1024+1)<<20
+		note("stat hostile-%s 1", res.class)
+		stats["hostile-records-returned"] += res.records
+		rep := func(sig, f string, a ...any) {
+			reported[sig]++
+			if reported[sig] > maxReportsPerSig {
+				propFail("C03 %s root=%s kind=%s (details suppressed)", sig, b.root.name, kind)
+				return
+			}
+			propFail("C03 %s root=%s base-opts=%s kind=%s: %s; input=%s", sig, b.root.name, b.o, kind, fmt.Sprintf(f, a...), hx(in))
+		}
+		switch res.class {
+		case "panic":
+			rep("reader-panic-"+res.site, "panic: %s", res.pan)
+		case "hang":
+			rep("reader-hang", "no result after 2 s")
+		case "many-records":
+			rep("reader-unbounded-records", "more than 200000 records from %d input bytes", len(in))
+		}
+		if alloc > maxAlloc {
+			maxAlloc = alloc
+		}
+		if alloc > bound {
+			rep("over-allocation", "allocated %d bytes for %d input bytes (bound %d)", alloc, len(in), bound)
+		}
+		if alloc > 64<<20 {
+			stats["inputs-allocating-over-64MiB"]++
+		}
+		if i%400 == 0 {
+			sample("hostile input kind=%s root=%s len=%d class=%s records=%d allocMiB=%d", kind, b.root.name, len(in), res.class, res.records, alloc>>20)
+		}
+
+	}
 	for i := 0; i < n; i++ {
 		b := bases[r.Intn(len(bases))]
 		in := append([]byte(nil), b.stream...)
@@ -234,50 +292,38 @@ func runHostileMode() {
 				in = append(in, byte(r.U64()))
 			}
 		}
-		stats["input-"+kind]++
-		note("case ho-%d", i)
-		runtime.ReadMemStats(&ms)
-		before := ms.TotalAlloc
-		done := make(chan hostileResult, 1)
-		go readHostile(b.root, in, done)
-		var res hostileResult
-		select {
-		case res = <-done:
-		case <-time.After(2 * time.Second):
-			res.class = "hang"
+		evalInput(i, b, in, kind)
+	}
+	// every single-bit flip of the frames of small uncompressed streams written in an OLDER schema
+	// (a oneof type number or a field mask one step beyond what the older schema has must be an
+	// error, the reader has no decoder for it)
+	k := n
+	var olderBases []base
+	for i := 0; len(olderBases) < 8 && i < 200; i++ {
+		root := roots[i%2]
+		o := wopts{flags: pkg.FrameFlags(r.Intn(8)), desc: true}
+		o.schema, o.schemaDesc = olderWireSchema(r, root.name, true)
+		if o.schema == nil {
+			continue
 		}
-		runtime.ReadMemStats(&ms)
-		alloc := ms.TotalAlloc - before
-		bound := uint64(3*64<<20) + uint64(len(in)/1024+1)<<20
-		note("stat hostile-%s 1", res.class)
-		stats["hostile-records-returned"] += res.records
-		rep := func(sig, f string, a ...any) {
-			reported[sig]++
-			if reported[sig] > maxReportsPerSig {
-				propFail("C03 %s root=%s kind=%s (details suppressed)", sig, b.root.name, kind)
-				return
-			}
-			propFail("C03 %s root=%s base-opts=%s kind=%s: %s; input=%s", sig, b.root.name, b.o, kind, fmt.Sprintf(f, a...), hx(in))
+		cfg := &recgen.Cfg{NoBigLens: true, MaxCalls: 25, NoFrozen: r.Bool(), DictResets: o.flags&pkg.RestartDictionaries != 0}
+		_, res := generate(r, root, o, cfg, genParams{writes: 3 + r.Intn(4), maxMut: 3, flushProb: 2})
+		if res.werr != "" || len(res.stream) > 1200 || len(res.stream) < 150 {
+			continue
 		}
-		switch res.class {
-		case "panic":
-			rep("reader-panic-"+res.site, "panic: %s", res.pan)
-		case "hang":
-			rep("reader-hang", "no result after 2 s")
-		case "many-records":
-			rep("reader-unbounded-records", "more than 200000 records from %d input bytes", len(in))
+		ps := parseStream(res.stream)
+		if ps.err != nil {
+			continue
 		}
-		if alloc > maxAlloc {
-			maxAlloc = alloc
-		}
-		if alloc > bound {
-			rep("over-allocation", "allocated %d bytes for %d input bytes (bound %d)", alloc, len(in), bound)
-		}
-		if alloc > 64<<20 {
-			stats["inputs-allocating-over-64MiB"]++
-		}
-		if i%400 == 0 {
-			sample("hostile input kind=%s root=%s len=%d class=%s records=%d allocMiB=%d", kind, b.root.name, len(in), res.class, res.records, alloc>>20)
+		olderBases = append(olderBases, base{root, res.stream, ps, o})
+	}
+	for _, b := range olderBases {
+		stats["older-schema-exhaustive-bases"]++
+		for bit := b.ps.hdrEnd * 8; bit < len(b.stream)*8; bit++ {
+			in := append([]byte(nil), b.stream...)
+			in[bit/8] ^= 1 << (bit % 8)
+			evalInput(k, b, in, "older-schema-flip-1")
+			k++
 		}
 	}
 	bigArrayCases()
